@@ -104,11 +104,11 @@ func Specs(o Oracle, quick bool) []*Spec {
 			add(&Spec{Name: "txn-gc-orphan-sync", Cfg: dbh.Config{Engine: "skiplist", Buckets: 1, VlogFileSize: pairVlog, SyncWrites: true},
 				Mode: "txn", Client: []string{"t:x=b", "t:x=d", "t:x=b,y=b"}, Maint: []string{"rf"}, MaxClient: 3, MaxMaint: 1, Depth: 3, PostDepth: 3, PostCrash: true, PostPut: true})
 			add(gcSpec("plain-gc-rewrite-nosync", false, 5, 3))
-			add(gcSpec("plain-gc-rewrite-sync", true, 5, 3))
+			add(gcSpec("plain-gc-rewrite-sync", true, 5, 2))
 			add(&Spec{Name: "plain-skiplist-b1-nosync", Cfg: dbh.Config{Engine: "skiplist", Buckets: 1, VlogFileSize: tinyVlog},
 				Mode: "plain", Client: plainOps(), Maint: macro, MaxClient: 3, MaxMaint: 2, Depth: 4, PostDepth: 3, PostCrash: true, PostPut: true, ShardAt: 3})
 			add(&Spec{Name: "plain-art-b2-sync", Cfg: dbh.Config{Engine: "art", Buckets: 2, VlogFileSize: tinyVlog, SyncWrites: true},
-				Mode: "plain", Client: plainOps(), Maint: macro, MaxClient: 3, MaxMaint: 2, Depth: 4, PostDepth: 3, PostCrash: true, PostPut: true, ShardAt: 3})
+				Mode: "plain", Client: plainOps(), Maint: macro, MaxClient: 3, MaxMaint: 2, Depth: 4, PostDepth: 2, PostCrash: true, PostPut: true, ShardAt: 3})
 			add(&Spec{Name: "txn-art-b2-sync-rewrite", Cfg: dbh.Config{Engine: "art", Buckets: 2, VlogFileSize: tinyVlog, SyncWrites: true, ManifestRewrite: 1},
 				Mode: "txn", Client: txnOps(), Maint: macro, MaxClient: 3, MaxMaint: 1, Depth: 3, PostDepth: 3, PostCrash: true, PostPut: true})
 			add(&Spec{Name: "txn-skiplist-b1-nosync", Cfg: dbh.Config{Engine: "skiplist", Buckets: 1, VlogFileSize: tinyVlog},
